@@ -203,6 +203,8 @@ def run(ctx):
     lookup_key_is_canonical(ctx, "R17-f")
     source_text_indexed_relatively(ctx, "R17-g")
     line_queries_share_one_matcher(ctx, "R17-h")
+    import c04
+    c04.name_scopes(ctx, "R17-i")     # shared with C04: the early exit for unselected items must not leak their skip names
 
 
 def hull_guards(ctx, rid):
